@@ -485,8 +485,8 @@ def stray_jump_family(quick, rng, all_pres_depth=2):
     import itertools
     wrap = {
         "L": lambda n, b: "stel k%d = 0; zolang k%d < 2 { k%d += 1; %s }" % (n, n, n, b),
-        "F": lambda n, b: "functie f%d() { stel loc%d = 7; %s; loc%d } f%d();" % (n, n, b, n, n),
-        "G": lambda n, b: "functie g%d() { %s } g%d();" % (n, b, n),          # a function without locals of its own
+        "F": lambda n, b: "functie f%d() { stel loc%d = 7; %s; loc%d } f%d()" % (n, n, b, n, n),      # (no `;` of its own: `;;` is a syntax error)
+        "G": lambda n, b: "functie g%d() { %s } g%d()" % (n, b, n),          # a function without locals of its own
         "B": lambda n, b: "{ %s }" % b,
         "I": lambda n, b: "als t >= 0 { %s }" % b,
         "E": lambda n, b: "als t < 0 { } anders { %s }" % b,
